@@ -583,3 +583,374 @@ Example lines_nonvacuous :
   complete_lines (content (run Binary ms (dest_open Binary [])))
   = [[123; 34; 97; 34; 58; 34; 92; 110; 92; 114; 34; 125]; [123; 125]].
 Proof. vm_compute. reflexivity. Qed.
+
+(* ========================================================================
+   5. decode (encode v) = Some v
+   ======================================================================== *)
+
+Definition nodigit_start (s : bytes) : Prop :=
+  match s with
+  | [] => True
+  | b :: _ => is_digit b = false
+  end.
+
+Lemma uint_bytes_digits d : Forall (fun b => is_digit b = true) (uint_bytes d).
+Proof. induction d; cbn; constructor; auto. Qed.
+
+Lemma span_digits_app ds rest :
+  Forall (fun b => is_digit b = true) ds -> nodigit_start rest ->
+  span_digits (ds ++ rest) = (ds, rest).
+Proof.
+  induction 1 as [|b ds Hb Hds IH]; intros Hr; cbn [List.app span_digits].
+  - destruct rest as [|b r]; [reflexivity|]. cbn in Hr. cbn [span_digits]. now rewrite Hr.
+  - rewrite Hb, IH by exact Hr. reflexivity.
+Qed.
+
+Lemma uint_of_bytes_uint_bytes d : uint_of_bytes (uint_bytes d) = d.
+Proof. induction d; cbn [uint_bytes uint_of_bytes]; try reflexivity; rewrite IHd; reflexivity. Qed.
+
+Lemma to_uint_cons n : exists b tl, uint_bytes (N.to_uint n) = b :: tl /\ is_digit b = true.
+Proof.
+  pose proof (uint_bytes_digits (N.to_uint n)) as F.
+  destruct (uint_bytes (N.to_uint n)) as [|b tl] eqn:E.
+  - exfalso. destruct n as [|p]; [discriminate|].
+    cbn in E. pose proof (Unsigned.to_uint_nonnil p) as Hn.
+    destruct (Pos.to_uint p); try discriminate. now apply Hn.
+  - inversion F; subst. eauto.
+Qed.
+
+Lemma parse_int_enc_int z b rest :
+  enc_int z = Some b -> nodigit_start rest -> parse_int (b ++ rest) = Some (JInt z, rest).
+Proof.
+  unfold enc_int. destruct (_ && _)%bool; [|discriminate].
+  intros H Hr; inversion H; subst; clear H.
+  destruct (to_uint_cons (Z.abs_N z)) as [d0 [tl [E Hd0]]].
+  pose proof (uint_bytes_digits (N.to_uint (Z.abs_N z))) as F.
+  pose proof (uint_of_bytes_uint_bytes (N.to_uint (Z.abs_N z))) as U.
+  unfold parse_int. destruct (z <? 0)%Z eqn:Ez.
+  - cbn [List.app]. change (45 =? 45) with true. cbv iota.
+    rewrite span_digits_app by assumption. rewrite E. rewrite <- E, U, DecimalN.Unsigned.of_to.
+    rewrite N2Z.inj_abs_N. apply Z.ltb_lt in Ez. repeat f_equal. lia.
+  - cbn [List.app]. rewrite E. cbn [List.app].
+    assert (d0 =? 45 = false) as Hne.
+    { unfold is_digit in Hd0. apply andb_true_iff in Hd0. destruct Hd0 as [A B].
+      apply N.leb_le in A. apply N.eqb_neq. lia. }
+    rewrite Hne. change (d0 :: tl ++ rest) with ((d0 :: tl) ++ rest). rewrite <- E.
+    rewrite span_digits_app by assumption. rewrite E. rewrite <- E, U, DecimalN.Unsigned.of_to.
+    rewrite N2Z.inj_abs_N. apply Z.ltb_ge in Ez. repeat f_equal. lia.
+Qed.
+
+(* ---- strings *)
+
+Lemma utf8_first c : is_scalar c = true ->
+  exists b0 tl, utf8 c = b0 :: tl /\ ((c < 128 /\ b0 = c) \/ 192 <= b0).
+Proof.
+  intros _. unfold utf8. cbv zeta.
+  destruct (c <? 128) eqn:E1; [|destruct (c <? 2048) eqn:E2; [|destruct (c <? 65536) eqn:E3]]; nb;
+    eexists; eexists; (split; [reflexivity|]); [left; split; [lia|reflexivity] | right; lia | right; lia | right; lia].
+Qed.
+
+Lemma parse_str_control c bs f rest :
+  c < 32 -> enc_char c = Some bs ->
+  parse_str (S f) (bs ++ rest) = cons_res c (parse_str f rest).
+Proof.
+  intros Hc H.
+  assert (c = 0 \/ c = 1 \/ c = 2 \/ c = 3 \/ c = 4 \/ c = 5 \/ c = 6 \/ c = 7 \/ c = 8 \/ c = 9 \/
+          c = 10 \/ c = 11 \/ c = 12 \/ c = 13 \/ c = 14 \/ c = 15 \/ c = 16 \/ c = 17 \/ c = 18 \/
+          c = 19 \/ c = 20 \/ c = 21 \/ c = 22 \/ c = 23 \/ c = 24 \/ c = 25 \/ c = 26 \/ c = 27 \/
+          c = 28 \/ c = 29 \/ c = 30 \/ c = 31) as D by lia.
+  repeat (destruct D as [D|D]; [subst c; vm_compute in H; inversion H; subst bs; reflexivity|]).
+  subst c; vm_compute in H; inversion H; subst bs; reflexivity.
+Qed.
+
+Lemma parse_str_char c bs f rest :
+  enc_char c = Some bs -> parse_str (S f) (bs ++ rest) = cons_res c (parse_str f rest).
+Proof.
+  intros H. destruct (N.ltb_spec c 32) as [Hlt|Hge]; [eapply parse_str_control; eauto|].
+  unfold enc_char in H.
+  destruct (c =? 34) eqn:E34.
+  { nb. subst c. inversion H; subst bs. reflexivity. }
+  destruct (c =? 92) eqn:E92.
+  { nb. subst c. inversion H; subst bs. reflexivity. }
+  rewrite (proj2 (N.ltb_ge c 32) Hge) in H.
+  destruct (is_scalar c) eqn:Es; [|discriminate]. inversion H; subst bs; clear H.
+  destruct (utf8_first c Es) as [b0 [tl [E Hb0]]]. nb.
+  pose proof (utf8_dec1_utf8 c rest Es) as D. rewrite E in *. cbn [List.app] in *.
+  cbn [parse_str].
+  assert (b0 =? 34 = false) as H1 by (apply N.eqb_neq; lia).
+  assert (b0 =? 92 = false) as H2 by (apply N.eqb_neq; lia).
+  assert (b0 <? 32 = false) as H3 by (apply N.ltb_ge; lia).
+  now rewrite H1, H2, H3, D.
+Qed.
+
+Lemma enc_char_nonempty c bs : enc_char c = Some bs -> (1 <= length bs)%nat.
+Proof.
+  unfold enc_char.
+  destruct (c =? 34); [intros H; inversion H; cbn; lia|].
+  destruct (c =? 92); [intros H; inversion H; cbn; lia|].
+  destruct (c <? 32).
+  - intros H; inversion H. destruct (short_escape c); cbn; lia.
+  - destruct (is_scalar c); [|discriminate]. intros H; inversion H. apply utf8_length.
+Qed.
+
+Lemma parse_str_chars s : forall parts n rest,
+  Forall2 (fun c p => enc_char c = Some p) s parts -> (length s < n)%nat ->
+  parse_str n (concat parts ++ 34 :: rest) = Some (s, rest).
+Proof.
+  induction s as [|c s IH]; intros parts n rest F Hn; inversion F; subst; cbn [concat List.app].
+  - destruct n; [lia|]. reflexivity.
+  - destruct n; [cbn in Hn; lia|]. rewrite <- List.app_assoc.
+    erewrite parse_str_char by eassumption. rewrite (IH l' n rest); auto. cbn in Hn. lia.
+Qed.
+
+Lemma parts_length s parts :
+  Forall2 (fun c p => enc_char c = Some p) s parts -> (length s <= length (concat parts))%nat.
+Proof.
+  induction 1; cbn; [lia|]. rewrite app_length. apply enc_char_nonempty in H. lia.
+Qed.
+
+(* after the opening quote *)
+Lemma parse_str_enc_str s b rest :
+  enc_str s = Some b ->
+  exists body, b = 34 :: body /\
+    parse_str (length (body ++ rest)) (body ++ rest) = Some (s, rest).
+Proof.
+  unfold enc_str. destruct (sequence (map enc_char s)) as [parts|] eqn:E; [|discriminate].
+  intros H; inversion H; subst; clear H. apply sequence_Forall2 in E.
+  exists (concat parts ++ [34]). split; [reflexivity|].
+  rewrite <- List.app_assoc. cbn [List.app].
+  apply parse_str_chars; auto. apply parts_length in E.
+  rewrite app_length. cbn. lia.
+Qed.
+
+(* ---- values *)
+
+Fixpoint float_free (v : jv) : bool :=
+  match v with
+  | JFloat _ => false
+  | JArr l => forallb float_free l
+  | JObj l => forallb (fun kv : jkey * jv => let '(_, x) := kv in float_free x) l
+  | _ => true
+  end.
+
+(* fuel [parse] needs *)
+Fixpoint size (v : jv) : nat :=
+  match v with
+  | JArr l => S (fold_right (fun x n => S (size x + n)) O l)
+  | JObj l => S (fold_right (fun (kv : jkey * jv) n => let '(_, x) := kv in S (size x + n)) O l)
+  | _ => 1%nat
+  end.
+
+Definition value_start (c : N) : Prop :=
+  c = 110 \/ c = 116 \/ c = 102 \/ c = 34 \/ c = 91 \/ c = 123 \/ c = 45 \/ is_digit c = true.
+
+Lemma enc_head v b : float_free v = true -> enc v = Some b -> exists c tl, b = c :: tl /\ value_start c.
+Proof.
+  unfold value_start. destruct v as [| b0 | z | f | s | l | l]; cbn; intros Hf H; try discriminate.
+  - inversion H. eexists; eexists; split; [reflexivity|]. tauto.
+  - inversion H. destruct b0; eexists; eexists; (split; [reflexivity|]); tauto.
+  - unfold enc_int in H. destruct (_ && _)%bool; [|discriminate]. inversion H; subst.
+    destruct (z <? 0)%Z; cbn [List.app]; [eexists; eexists; split; [reflexivity|]; tauto|].
+    destruct (to_uint_cons (Z.abs_N z)) as [d0 [tl [E Hd]]]. rewrite E.
+    eexists; eexists; split; [reflexivity|]. tauto.
+  - unfold enc_str in H. destruct (sequence _); [|discriminate]. inversion H.
+    eexists; eexists; split; [reflexivity|]. tauto.
+  - destruct (sequence _); [|discriminate]. inversion H.
+    eexists; eexists; split; [reflexivity|]. tauto.
+  - destruct (sequence _); [|discriminate]. inversion H.
+    eexists; eexists; split; [reflexivity|]. tauto.
+Qed.
+
+Definition roundtrips (v : jv) : Prop :=
+  forall b rest fuel,
+    float_free v = true -> enc v = Some b -> nodigit_start rest -> (size v <= fuel)%nat ->
+    parse fuel (b ++ rest) = Some (v, rest).
+
+Lemma parse_elems_ok l : forall parts rest fuel,
+  Forall roundtrips l -> l <> [] ->
+  forallb float_free l = true ->
+  Forall2 (fun x p => enc x = Some p) l parts ->
+  (fold_right (fun x n => S (size x + n)) O l <= fuel)%nat ->
+  parse_elems fuel (join_comma parts ++ 93 :: rest) = Some (l, rest).
+Proof.
+  induction l as [|x l IH]; intros parts rest fuel HR Hne Hff F Hfuel; [congruence|].
+  inversion F as [|x' p l' ps Hx Hps]; subst. inversion HR as [|x' l' Rx Rl]; subst.
+  cbn [forallb] in Hff. apply andb_true_iff in Hff. destruct Hff as [Hfx Hfl].
+  cbn [fold_right] in Hfuel. destruct fuel as [|fuel]; [lia|].
+  destruct l as [|y l].
+  - inversion Hps; subst. cbn [join_comma parse_elems].
+    rewrite (Rx p (93 :: rest) fuel Hfx Hx) by (cbn; auto; lia). reflexivity.
+  - inversion Hps as [|y' py l' ps' Hy Hps']; subst.
+    change (join_comma (p :: py :: ps')) with (p ++ 44 :: join_comma (py :: ps')).
+    rewrite <- List.app_assoc. cbn [List.app parse_elems].
+    rewrite (Rx p (44 :: join_comma (py :: ps') ++ 93 :: rest) fuel Hfx Hx) by (cbn; auto; lia).
+    change (44 =? 44) with true. cbv iota.
+    rewrite (IH (py :: ps') rest fuel Rl); auto; [congruence | cbn [fold_right] in *; lia].
+Qed.
+
+Definition msize (kv : jkey * jv) (n : nat) : nat := let '(_, x) := kv in S (size x + n).
+
+Lemma parse_members_ok l : forall parts rest fuel,
+  Forall (fun kv => roundtrips (snd kv)) l -> l <> [] ->
+  forallb (fun kv : jkey * jv => let '(_, x) := kv in float_free x) l = true ->
+  Forall2 (fun kv p => enc_member enc kv = Some p) l parts ->
+  (fold_right msize O l <= fuel)%nat ->
+  parse_members fuel (join_comma parts ++ 125 :: rest) = Some (l, rest).
+Proof.
+  induction l as [|kv l IH]; intros parts rest fuel HR Hne Hff F Hfuel; [congruence|].
+  inversion F as [|kv' p l' ps Hkv Hps]; subst. inversion HR as [|kv' l' Rx Rl]; subst.
+  cbn [forallb] in Hff. apply andb_true_iff in Hff. destruct Hff as [Hfx Hfl].
+  destruct kv as [k x]. cbn [snd] in Rx. cbn [fold_right msize] in Hfuel.
+  destruct fuel as [|fuel]; [lia|].
+  cbn [enc_member] in Hkv. destruct k as [s|]; [|discriminate].
+  destruct (enc_str s) as [a|] eqn:Ea; [|discriminate].
+  destruct (enc x) as [bx|] eqn:Ex; [|discriminate]. inversion Hkv; subst p; clear Hkv.
+  destruct l as [|kv2 l].
+  - inversion Hps; subst. cbn [join_comma].
+    destruct (parse_str_enc_str s a (58 :: bx ++ 125 :: rest) Ea) as [body [Eb Hp]]. subst a.
+    rewrite <- !List.app_assoc. cbn [List.app parse_members].
+    change (34 =? 34) with true. cbv iota. rewrite Hp.
+    change (58 =? 58) with true. cbv iota.
+    rewrite (Rx bx (125 :: rest) fuel Hfx Ex) by (cbn; auto; lia). reflexivity.
+  - inversion Hps as [|y' py l' ps' Hy Hps']; subst.
+    change (join_comma ((a ++ 58 :: bx) :: py :: ps')) with ((a ++ 58 :: bx) ++ 44 :: join_comma (py :: ps')).
+    destruct (parse_str_enc_str s a (58 :: bx ++ 44 :: join_comma (py :: ps') ++ 125 :: rest) Ea) as [body [Eb Hp]]. subst a.
+    rewrite <- !List.app_assoc. cbn [List.app parse_members].
+    change (34 =? 34) with true. cbv iota.
+    rewrite <- ?List.app_assoc in Hp. cbn [List.app] in Hp. rewrite Hp.
+    change (58 =? 58) with true. cbv iota.
+    rewrite (Rx bx (44 :: join_comma (py :: ps') ++ 125 :: rest) fuel Hfx Ex) by (cbn; auto; lia).
+    change (44 =? 44) with true. cbv iota.
+    rewrite (IH (py :: ps') rest fuel Rl); auto; [congruence | cbn [fold_right msize] in *; lia].
+Qed.
+
+Lemma value_start_not c : value_start c -> c <> 93 /\ c <> 125 /\ c <> 44.
+Proof.
+  unfold value_start, is_digit. intros H.
+  repeat (destruct H as [H|H]; [subst; repeat split; discriminate|]).
+  apply andb_true_iff in H. destruct H as [A B]. apply N.leb_le in A, B. lia.
+Qed.
+
+Lemma parse_dispatch_int f b tl :
+  (b = 45 \/ is_digit b = true) -> parse (S f) (b :: tl) = parse_int (b :: tl).
+Proof.
+  intros H. cbn [parse].
+  assert (b <> 110 /\ b <> 116 /\ b <> 102 /\ b <> 34 /\ b <> 91 /\ b <> 123) as N.
+  { destruct H as [->|H]; [repeat split; discriminate|].
+    unfold is_digit in H. apply andb_true_iff in H. destruct H as [A B]. apply N.leb_le in A, B. lia. }
+  destruct N as [N1 [N2 [N3 [N4 [N5 N6]]]]].
+  apply N.eqb_neq in N1, N2, N3, N4, N5, N6. now rewrite N1, N2, N3, N4, N5, N6.
+Qed.
+
+Theorem enc_roundtrips : forall v, roundtrips v.
+Proof.
+  induction v as [| b0 | z | f | s | l IHl | l IHl] using jv_ind';
+    intros out rest fuel Hff Henc Hrest Hfuel; cbn [size] in Hfuel;
+    (destruct fuel as [|fuel]; [lia|]).
+  - cbn in Henc. inversion Henc; subst. reflexivity.
+  - cbn in Henc. inversion Henc; subst. destruct b0; reflexivity.
+  - cbn [enc] in Henc. pose proof Henc as Henc'.
+    unfold enc_int in Henc'. destruct (_ && _)%bool; [|discriminate]. injection Henc' as E.
+    assert (exists b tl, out = b :: tl /\ (b = 45 \/ is_digit b = true)) as [b [tl [Eo Hb]]].
+    { subst out. destruct (z <? 0)%Z; cbn [List.app]; [eauto|].
+      destruct (to_uint_cons (Z.abs_N z)) as [d0 [tl [E' Hd]]]. rewrite E'. eauto. }
+    rewrite Eo at 1. cbn [List.app]. rewrite parse_dispatch_int by exact Hb.
+    change (b :: tl ++ rest) with ((b :: tl) ++ rest). rewrite <- Eo.
+    now apply parse_int_enc_int.
+  - discriminate.
+  - cbn [enc] in Henc. destruct (parse_str_enc_str s out rest Henc) as [body [Eb Hp]]. subst out.
+    cbn [List.app parse]. change (34 =? 110) with false. change (34 =? 116) with false.
+    change (34 =? 102) with false. change (34 =? 34) with true. cbv iota. now rewrite Hp.
+  - cbn [enc] in Henc. destruct (sequence (map enc l)) as [parts|] eqn:E; [|discriminate].
+    inversion Henc; subst out; clear Henc. apply sequence_Forall2 in E.
+    cbn [float_free] in Hff.
+    destruct l as [|x l].
+    + inversion E; subst. reflexivity.
+    + assert (exists c tl, join_comma parts = c :: tl /\ c <> 93) as [c [tl [Ej Hc]]].
+      { inversion E as [|x' p l' ps Hx Hps]; subst.
+        cbn [forallb] in Hff. apply andb_true_iff in Hff. destruct Hff as [Hfx _].
+        destruct (enc_head x p Hfx Hx) as [c [tl [Ep Hs]]]. apply value_start_not in Hs.
+        subst p. destruct ps; cbn [join_comma List.app]; eexists; eexists; split; try reflexivity; tauto. }
+      cbn [List.app]. rewrite <- List.app_assoc. cbn [List.app].
+      pose proof (parse_elems_ok (x :: l) parts rest fuel IHl ltac:(congruence) Hff E ltac:(lia)) as PE.
+      rewrite Ej in *. cbn [List.app] in *. cbn [parse].
+      change (91 =? 110) with false. change (91 =? 116) with false. change (91 =? 102) with false.
+      change (91 =? 34) with false. change (91 =? 91) with true. cbv iota.
+      apply N.eqb_neq in Hc. rewrite Hc. now rewrite PE.
+  - cbn [enc] in Henc. destruct (sequence (map (enc_member enc) l)) as [parts|] eqn:E; [|discriminate].
+    inversion Henc; subst out; clear Henc. apply sequence_Forall2 in E.
+    cbn [float_free] in Hff.
+    destruct l as [|kv l].
+    + inversion E; subst. reflexivity.
+    + assert (exists tl, join_comma parts = 34 :: tl) as [tl Ej].
+      { inversion E as [|kv' p l' ps Hkv Hps]; subst. destruct kv as [k x]. cbn [enc_member] in Hkv.
+        destruct k as [s|]; [|discriminate]. unfold enc_str in Hkv.
+        destruct (sequence (map enc_char s)); [|discriminate]. destruct (enc x); [|discriminate].
+        inversion Hkv. destruct ps; cbn [join_comma List.app]; eauto. }
+      cbn [List.app]. rewrite <- List.app_assoc. cbn [List.app].
+      assert (fold_right msize O (kv :: l) <= fuel)%nat as Hm by (unfold msize; lia).
+      pose proof (parse_members_ok (kv :: l) parts rest fuel IHl ltac:(congruence) Hff E Hm) as PM.
+      rewrite Ej in *. cbn [List.app] in *. cbn [parse].
+      change (123 =? 110) with false. change (123 =? 116) with false. change (123 =? 102) with false.
+      change (123 =? 34) with false. change (123 =? 91) with false. change (123 =? 123) with true.
+      change (34 =? 125) with false. cbv iota. now rewrite PM.
+Qed.
+
+Lemma join_comma_length parts :
+  (fold_right (fun p n => S (length p + n)) O parts <= S (length (join_comma parts)))%nat.
+Proof.
+  induction parts as [|p ps IH]; cbn [fold_right join_comma]; [lia|].
+  destruct ps as [|q ps]; [cbn; lia|].
+  rewrite app_length. cbn [length]. cbn [fold_right] in *. lia.
+Qed.
+
+Lemma size_le_length v : forall b, float_free v = true -> enc v = Some b -> (size v <= length b)%nat.
+Proof.
+  induction v as [| b0 | z | f | s | l IHl | l IHl] using jv_ind'; intros out Hff Henc;
+    try (destruct (enc_head _ _ Hff Henc) as [c [tl [E _]]]; subst out; cbn; lia).
+  - cbn [enc] in Henc. destruct (sequence (map enc l)) as [parts|] eqn:E; [|discriminate].
+    inversion Henc; subst out; clear Henc. apply sequence_Forall2 in E. cbn [float_free] in Hff.
+    cbn [size length]. rewrite app_length. cbn [length].
+    assert (fold_right (fun x n => S (size x + n)) O l
+            <= fold_right (fun p n => S (length p + n)) O parts)%nat as A.
+    { revert IHl Hff. induction E as [|x p l' ps Hx E IH]; intros HF Hff; cbn [fold_right]; [lia|].
+      inversion HF; subst. cbn [forallb] in Hff. apply andb_true_iff in Hff. destruct Hff as [Hfx Hfl].
+      specialize (IH H2 Hfl). specialize (H1 p Hfx Hx). lia. }
+    pose proof (join_comma_length parts). lia.
+  - cbn [enc] in Henc. destruct (sequence (map (enc_member enc) l)) as [parts|] eqn:E; [|discriminate].
+    inversion Henc; subst out; clear Henc. apply sequence_Forall2 in E. cbn [float_free] in Hff.
+    cbn [size length]. rewrite app_length. cbn [length].
+    assert (fold_right msize O l <= fold_right (fun p n => S (length p + n)) O parts)%nat as A.
+    { revert IHl Hff. induction E as [|kv p l' ps Hkv E IH]; intros HF Hff; cbn [fold_right]; [lia|].
+      inversion HF; subst. cbn [forallb] in Hff. apply andb_true_iff in Hff. destruct Hff as [Hfx Hfl].
+      specialize (IH H2 Hfl). destruct kv as [k x]. cbn [enc_member] in Hkv.
+      destruct k as [s|]; [|discriminate]. destruct (enc_str s) as [a|]; [|discriminate].
+      destruct (enc x) as [bx|] eqn:Ex; [|discriminate]. inversion Hkv; subst p.
+      cbn [snd] in H1. specialize (H1 bx Hfx Ex). unfold msize at 1.
+      rewrite app_length. cbn [length]. lia. }
+    pose proof (join_comma_length parts). unfold msize in A. lia.
+Qed.
+
+(* decoding an encoding gives the value back: on the float-free domain the
+   encoder is injective and its output is read back exactly *)
+Theorem decode_encode_lemma : forall v b,
+  float_free v = true -> encode v = Some b -> decode b = Some v.
+Proof.
+  intros v b Hff H. apply encode_enc in H. unfold decode.
+  pose proof (size_le_length v b Hff H) as Hs.
+  pose proof (enc_roundtrips v b [] (S (length b)) Hff H I ltac:(lia)) as R.
+  rewrite List.app_nil_r in R. now rewrite R.
+Qed.
+
+Corollary encode_injective : forall v w b,
+  float_free v = true -> float_free w = true -> encode v = Some b -> encode w = Some b -> v = w.
+Proof.
+  intros v w b Hv Hw Ev Ew. apply decode_encode_lemma in Ev, Ew; auto. congruence.
+Qed.
+
+Example decode_nonvacuous :
+  let v := JObj [(KStr [97; 34; 10; 233; 128512],
+                  JArr [JInt (-9223372036854775808); JInt 18446744073709551615; JNull; JBool true;
+                        JStr [0; 31; 127; 8232]; JObj []; JArr []])] in
+  float_free v = true /\ match encode v with Some b => decode b = Some v | None => False end.
+Proof. vm_compute. split; reflexivity. Qed.
